@@ -282,3 +282,164 @@ Lemma set_invalid s uid id : ~ (1 <= uid <= MAXU) -> set_user_id s uid id = Ok (
 Proof.
   intros H. unfold set_user_id. destruct (Z.leb_spec uid 0); [reflexivity|]. destruct (Z.ltb_spec MAXU uid); [reflexivity|]. lia.
 Qed.
+
+(* ------------------------------------------------------------------ lookups *)
+Lemma do_search_spec s q : WF s -> exists l, chain (nx s) (hd s (uhash q)) l /\
+  (forall x, In x l -> in_range x = true /\ uhash (idf s x) = uhash q) /\
+  do_search_user_raw s q = Ok (match find (fun x => id_eq_ci q (idf s x)) l with Some x => x + 1 | None => 0 end).
+Proof.
+  intros W. destruct (WF_bucket s (uhash q) W (uhash_ok q)) as [l [Hc [Hnd [Hrange [Hh Hlen]]]]].
+  exists l. split; [exact Hc|]. split; [intros x Hin; split; auto|].
+  unfold do_search_user_raw. fold (hd s (uhash q)). apply search_walk_chain; assumption.
+Qed.
+
+Lemma find_unique {A} (p : A -> bool) x : forall l, In x l -> p x = true -> (forall y, In y l -> p y = true -> y = x) -> find p l = Some x.
+Proof.
+  induction l as [|a l IH]; intros Hin Hp Hu; [destruct Hin|]. cbn [find].
+  destruct (p a) eqn:E.
+  - f_equal. apply Hu; [left; reflexivity|exact E].
+  - destruct Hin as [->|Hin]; [congruence|]. apply IH; [exact Hin|exact Hp|]. intros y Hy. apply Hu. right. exact Hy.
+Qed.
+
+(* a lookup that answers uid <> 0 names a slot that is in the index and holds the queried id up to letter case *)
+Lemma search_sound s q v : WF s -> do_search_user_raw s q = Ok v -> v <> 0 ->
+  in_range (v - 1) = true /\ on_chain s (v - 1) /\ id_eq_ci q (idf s (v - 1)) = true.
+Proof.
+  intros W E Hv. destruct (do_search_spec s q W) as [l [Hc [Hx Es]]]. rewrite Es in E. inversion E as [Ev]. clear E.
+  destruct (find (fun x => id_eq_ci q (idf s x)) l) as [x|] eqn:F; [|congruence].
+  apply find_some in F. destruct F as [Hin Hp]. replace (x + 1 - 1) with x by lia.
+  split; [apply (Hx x Hin)|]. split; [|exact Hp]. exists (uhash q), l. split; [apply uhash_ok|auto].
+Qed.
+
+(* distinct up to case: no other indexed slot holds x's id in any letter case *)
+Definition unique_ci (s : st) (x : Z) : Prop := forall y, on_chain s y -> id_eq_ci (idf s y) (idf s x) = true -> y = x.
+
+(* any letter case of an id held by an indexed slot finds that slot *)
+Lemma search_complete s x q : WF s -> on_chain s x -> unique_ci s x -> id_eq_ci q (idf s x) = true ->
+  do_search_user_raw s q = Ok (x + 1).
+Proof.
+  intros W Hon Hu Hq. destruct (do_search_spec s q W) as [l [Hc [Hx Es]]]. rewrite Es.
+  destruct (on_chain_own_bucket s x W Hon) as [l' [Hc' Hin']].
+  rewrite <- (id_eq_ci_hash q (idf s x) Hq) in Hc'. rewrite (chain_fun _ _ _ Hc' _ Hc) in Hin'.
+  rewrite (find_unique _ x l Hin' Hq); [reflexivity|].
+  intros y Hy Hpy. apply Hu; [exists (uhash q), l; split; [apply uhash_ok|auto]|].
+  apply id_eq_ci_trans with (b := q); [apply id_eq_ci_sym; exact Hpy|exact Hq].
+Qed.
+
+(* an id held by no indexed slot (in any letter case) is not found *)
+Lemma search_absent s q : WF s -> (forall y, on_chain s y -> id_eq_ci q (idf s y) = false) -> do_search_user_raw s q = Ok 0.
+Proof.
+  intros W Hno. destruct (do_search_spec s q W) as [l [Hc [Hx Es]]]. rewrite Es.
+  destruct (find (fun x => id_eq_ci q (idf s x)) l) as [x|] eqn:F; [|reflexivity].
+  apply find_some in F. destruct F as [Hin Hp]. rewrite Hno in Hp; [discriminate|].
+  exists (uhash q), l. split; [apply uhash_ok|auto].
+Qed.
+
+(* SearchUserRaw: the empty id is answered 0 without a walk, everything else is DoSearchUserRaw *)
+Lemma search_user_raw_nonempty s q : nth 0 q 0 <> 0 -> search_user_raw s q = do_search_user_raw s q.
+Proof. intros H. unfold search_user_raw. destruct (Z.eqb_spec (nth 0 q 0) 0); [contradiction|reflexivity]. Qed.
+Lemma search_user_raw_empty s q : nth 0 q 0 = 0 -> search_user_raw s q = Ok 0.
+Proof. intros H. unfold search_user_raw. rewrite H. reflexivity. Qed.
+
+Lemma MAXU_pos : 0 < MAXU.
+Proof. reflexivity. Qed.
+
+(* termination: under WF no walk crashes or runs out of fuel *)
+Lemma search_total s q : WF s -> exists v, search_user_raw s q = Ok v /\ 0 <= v <= MAXU.
+Proof.
+  intros W. unfold search_user_raw. destruct (nth 0 q 0 =? 0); [exists 0; split; [reflexivity|]; pose proof MAXU_pos; lia|].
+  destruct (do_search_spec s q W) as [l [Hc [Hx Es]]]. rewrite Es.
+  destruct (find (fun x => id_eq_ci q (idf s x)) l) as [x|] eqn:F.
+  - exists (x + 1). split; [reflexivity|]. apply find_some in F. destruct F as [Hin _]. destruct (Hx x Hin) as [Hr _]. apply in_range_spec in Hr. lia.
+  - exists 0. split; [reflexivity|]. pose proof MAXU_pos. lia.
+Qed.
+
+(* ------------------------------------------------------------------ cold load *)
+Lemma lenZ_cons {A} (a : A) l : lenZ (a :: l) = 1 + lenZ l.
+Proof. unfold lenZ. cbn [length]. lia. Qed.
+
+Definition fresh_from (s : st) (i : Z) : Prop := forall x, i <= x -> ~ on_chain s x.
+
+Lemma fuel_loader_ok (l : list Z) : (length l <= Z.to_nat MAXU)%nat -> (length l < FUEL_LOADER)%nat.
+Proof. unfold FUEL_LOADER. lia. Qed.
+
+Lemma userec_add_cold s cnt i id : WF s -> in_range i = true -> ~ on_chain s i ->
+  exists s' cnt', userec_add s cnt i id false = Ok (s', cnt') /\ WF s' /\ (forall x, on_chain s' x -> on_chain s x \/ x = i).
+Proof.
+  intros W Hr Hfree. unfold userec_add. cbv zeta.
+  destruct (negb (is_valid_id id) && (PREALLOC <? (if is_valid_id id then cnt else cnt + 1))).
+  - eexists. eexists. split; [reflexivity|]. split; [exact W|]. intros x Hx. left. exact Hx.
+  - rewrite Hr. cbn [negb orb].
+    set (h := uhash id). set (s1 := set_id s i id).
+    destruct (WF_bucket s h W (uhash_ok id)) as [l0 [Hc [Hnd [Hrange [_ Hlen]]]]].
+    change (next s1) with (next s). change (tget (head s1) h) with (hd s h).
+    rewrite (load_walk_chain (next s) false i (hd s h) l0 Hc Hrange FUEL_LOADER false h (fuel_loader_ok l0 Hlen)).
+    cbn [andb].
+    assert (Hid1 : idf s1 i = id) by (unfold idf, s1; cbn [set_id ids]; apply tget_tset_same).
+    assert (Hoth1 : forall x, x <> i -> idf s1 x = idf s x) by (intros x Hx; unfold idf, s1; cbn [set_id ids]; apply tget_tset_other; exact Hx).
+    destruct (link_state_wf s s1 i h l0 W Hr Hfree (uhash_ok id) eq_refl eq_refl) as [W' [_ [Hon _]]];
+      [rewrite Hid1; reflexivity|exact Hoth1|exact Hc|].
+    exists (link_state s1 l0 h i). eexists. split.
+    + unfold link_state. destruct (tail_ptr l0 false h) as [isn p]. reflexivity.
+    + split; [exact W'|]. intros x Hx. apply Hon. exact Hx.
+Qed.
+
+Lemma fill_records_cold : forall recs s cnt i, WF s -> 0 <= i -> i + lenZ recs <= MAXU -> fresh_from s i ->
+  exists s', fill_records s cnt i recs false = Ok s' /\ WF s' /\ number s' = number s /\ loaded s' = loaded s.
+Proof.
+  induction recs as [|id r IH]; intros s cnt i W Hi Hlen Hfresh; cbn [fill_records].
+  - exists s. auto.
+  - rewrite lenZ_cons in Hlen. assert (Hl0 : 0 <= lenZ r) by (unfold lenZ; lia).
+    assert (Hr : in_range i = true) by (apply in_range_spec; lia).
+    destruct (userec_add_cold s cnt i id W Hr (Hfresh i (Z.le_refl i))) as [s1 [cnt1 [E [W1 Hon]]]]. rewrite E.
+    assert (Hns : number s1 = number s /\ loaded s1 = loaded s).
+    { clear - E. unfold userec_add in E. cbv zeta in E.
+      destruct (negb (is_valid_id id) && _); [inversion E; auto|]. destruct (negb (in_range i)); [discriminate|].
+      cbn [negb orb] in E. destruct (load_walk _ _ _ _ _ _ _) as [[[isn p]|]| |]; inversion E; subst; [|auto].
+      destruct isn; auto. }
+    destruct (IH s1 cnt1 (i + 1) W1) as [s' [E' [W' [Hn Hl]]]]; [lia|lia| |].
+    + intros x Hx Hon'. destruct (Hon x Hon') as [H|H]; [apply (Hfresh x); [lia|exact H]|lia].
+    + exists s'. split; [exact E'|]. split; [exact W'|]. destruct Hns. split; congruence.
+Qed.
+
+Lemma HASHN_pos : 0 < HASHN.
+Proof. reflexivity. Qed.
+
+(* fillUHash(false) from ANY state, garbage included *)
+Lemma fill_cold_wf s recs : lenZ recs <= MAXU ->
+  exists s1, fill_uhash s recs false = Ok s1 /\ WF s1 /\ number s1 = lenZ recs /\ loaded s1 = loaded s.
+Proof.
+  intros Hlen. unfold fill_uhash, init_fill.
+  set (s0 := mkst (tconst (-1)) (next s) (ids s) (number s) (loaded s)).
+  assert (Hd0 : forall h, hd s0 h = -1) by (intros h; unfold hd, s0; cbn [head]; apply tget_tconst).
+  assert (W0 : WF s0).
+  { intros h Hh. exists []. rewrite Hd0. split; [constructor|]. split; [constructor|]. intros x []. }
+  assert (F0 : fresh_from s0 0).
+  { intros x _ [h [l [Hh [Hc Hin]]]]. rewrite Hd0 in Hc. inversion Hc; subst; [destruct Hin|congruence]. }
+  destruct (fill_records_cold recs s0 0 0 W0 (Z.le_refl 0)) as [s1 [E [W1 [Hn Hl]]]]; [lia|exact F0|].
+  rewrite E. eexists. split; [reflexivity|]. split; [exact W1|]. split; [reflexivity|]. cbn [loaded]. rewrite Hl. reflexivity.
+Qed.
+
+Lemma cold_load_wf s0 recs : lenZ recs <= MAXU ->
+  exists s', load_uhash (unload s0) recs = Ok s' /\ WF s' /\ number s' = lenZ recs /\ loaded s' = 1.
+Proof.
+  intros Hlen. unfold load_uhash.
+  change (number (unload s0)) with 0. change (loaded (unload s0)) with 0. cbn [Z.eqb andb].
+  destruct (fill_cold_wf (unload s0) recs Hlen) as [s1 [E [W1 [Hn _]]]]. rewrite E.
+  eexists. split; [reflexivity|]. split; [exact W1|]. split; [exact Hn|reflexivity].
+Qed.
+
+(* ------------------------------------------------------------------ reload into a populated segment *)
+Lemma check_hash_wf s h : WF s -> hash_ok h -> check_hash s h = Ok s.
+Proof.
+  intros W Hh. destruct (WF_bucket s h W Hh) as [l [Hc [Hnd [Hrange [Hhash Hlen]]]]].
+  unfold check_hash. fold (hd s h). apply (check_walk_wf s h (hd s h) l Hc); [|apply fuel_loader_ok; exact Hlen].
+  intros x Hin. split; auto.
+Qed.
+
+Lemma check_from_wf s : WF s -> forall n h, 0 <= h -> h + Z.of_nat n <= HASHN -> check_from n h s = Ok s.
+Proof.
+  intros W. induction n as [|n IH]; intros h H0 Hn; cbn [check_from]; [reflexivity|].
+  rewrite check_hash_wf; [|exact W|unfold hash_ok; lia]. apply IH; lia.
+Qed.
+
